@@ -367,7 +367,7 @@ func main() {
 	o.DeclareSuite("stream", "From Coq Require Import Uint63.\nFrom Verif Require Import C15.Model.", "fcase", "run_flat")
 	o.DeclareSuite("witness", "From Coq Require Import Uint63.\nFrom Verif Require Import C15.Model C15.Witness.", "fcase", "run_witness")
 	o.DeclareSuite("faults", "From Coq Require Import Uint63.\nFrom Verif Require Import C15.Model C15.Faults.", "fcase", "run_faults")
-	o.DeclareSuite("settle", "From Coq Require Import Uint63.\nFrom Verif Require Import C15.Model C15.Settle.", "fcase", "run_settle")
+	o.DeclareSuite("settle", settleImports, "fcase", settleRunFn) // settle.go
 	o.DeclareSuite("notify", "From Coq Require Import Uint63.\nFrom Verif Require Import C15.Model C15.Faults C15.Notify.", "fcase", "run_notify")
 	o.Rule("random access-log streams of 1-30 records over small URL alphabets (2-6 path parts, depth 1-3, " +
 		"1-3 hosts, split threshold 1-3 so that path-parameter convergence happens mid-stream; some streams with " +
